@@ -1,3 +1,4 @@
+#include <locale>
 // Engine `wire`: C04 (decoded packets report the wire fields), C02 (memory safety / ownership /
 // termination on arbitrary bytes and histories), C03 (accepted payloads expose in-bounds data only),
 // C15 (TECMP conversion). All inputs come from the independent builders in ref/.
@@ -161,7 +162,7 @@ static Corpus makeCorpus()
     for (uint8_t ver : {(uint8_t) 1, (uint8_t) 2, (uint8_t) 0x7F, (uint8_t) 0xFF})
         for (uint16_t dev : {(uint16_t) 0, (uint16_t) 0x0102, (uint16_t) 0xFFFF})
             for (uint8_t str : {(uint8_t) 0, (uint8_t) 1, (uint8_t) 0xFF})
-                for (uint8_t mt : {(uint8_t) 1, (uint8_t) 2, (uint8_t) 3, (uint8_t) 0xFF, (uint8_t) 0x07})
+                for (uint8_t mt : {(uint8_t) 1, (uint8_t) 2, (uint8_t) 3, (uint8_t) 0xFF, (uint8_t) 0x07, (uint8_t) 0})   // 0: 'undefined', still a frame
                 {
                     ref::FrameHdr h;
                     h.version = ver; h.device = dev; h.stream = str; h.msgType = mt; h.seq = 0x1234;
@@ -218,6 +219,10 @@ static std::vector<C04Task> c04Tasks(const Corpus& c, bool thorough)
             for (int i = 0; i < (int) c.sub.size(); ++i)
                 for (int j = 0; j < (int) c.sub.size(); ++j)
                     t.push_back({'Q', mt, i, j});
+    // every payload type byte 0..255 under five frame message types, with a body that is a valid CAN image and one that is not: only
+    // the seven typed kinds may be routed to a class validator, every other (message type, type byte) pair is a generic payload
+    for (int pt = 0; pt < 256; ++pt)
+        t.push_back({'Y', pt, 0, 0});
     // every single bit of the 16-bit flags word alone, per typed data class (each bit of an error mask is its own shortcut)
     for (int cls = 0; cls < 5; ++cls)
         for (int bit = 0; bit < 16; ++bit)
@@ -259,6 +264,21 @@ static void runC04Task(W& w, const Corpus& c, const C04Task& t)
     {
         for (int k : c.sub)
             each(ref::buildFrame(t.a ? statH : dataH, {c.A[c.sub[t.b]].m, c.A[c.sub[t.c]].m, c.A[k].m}));
+    }
+    else if (t.part == 'Y')
+    {
+        ref::CanF f;
+        f.idword = 0x123; f.dlc = 2; f.dataLen = 2; f.data = patt(2, 1);
+        const Bytes canImage = ref::canPayload(f);
+        Bytes lying = canImage;
+        lying[15] = 200;   // as a CAN / LIN-like image its inner length would not fit
+        for (uint8_t mt : {(uint8_t) ref::MT_DATA, (uint8_t) 2, (uint8_t) ref::MT_STATUS, (uint8_t) 0xFF, (uint8_t) 0x07, (uint8_t) 0})
+        {
+            ref::FrameHdr h = dataH;
+            h.msgType = mt;
+            for (const Bytes* body : {&canImage, (const Bytes*) &lying})
+                each(ref::buildFrame(h, {ref::mkMsg((uint8_t) t.a, *body, 0x01, 0x0102030405060708ull, 0xA1B2C3D4u)}));
+        }
     }
     else if (t.part == 'F')
     {
@@ -551,6 +571,21 @@ static C02Ctx makeC02(bool thorough)
     }
     return c;
 }
+
+// RAII: a global C++ locale whose numpunct groups digits by three with ',' and uses ';' as decimal point (hand-built facet: no
+// installed system locale is needed; the C locale, which the harness's own printf formatting uses, stays untouched)
+struct GroupingLocale
+{
+    struct Punct : std::numpunct<char>
+    {
+        char do_thousands_sep() const override { return ','; }
+        std::string do_grouping() const override { return "\3"; }
+        char do_decimal_point() const override { return ';'; }
+    };
+    std::locale old;
+    GroupingLocale() : old(std::locale::global(std::locale(std::locale::classic(), new Punct))) {}
+    ~GroupingLocale() { std::locale::global(old); }
+};
 
 // ---------------------------------------------------------------------------------------------
 // TECMP sweep / C15
@@ -1366,7 +1401,7 @@ int main(int argc, char** argv)
             w.add(mc::C_STATES, 1);
         });
         auto tasks = c04Tasks(corpus, thorough);
-        for (char part : {'H', 'F', 'P', 'T', 'Q'})
+        for (char part : {'H', 'F', 'Y', 'P', 'T', 'Q'})
         {
             std::vector<C04Task> ts;
             for (auto& t : tasks)
@@ -1374,7 +1409,7 @@ int main(int argc, char** argv)
                     ts.push_back(t);
             if (ts.empty())
                 continue;
-            const char* nm = part == 'H' ? "header sweep x {0,1} message" : part == 'F' ? "every single flag bit alone x 5 typed data classes" : (part == 'P' ? "all ordered message pairs" : (part == 'T' ? "all triples over the sub-alphabet" : "all quadruples over the sub-alphabet"));
+            const char* nm = part == 'H' ? "header sweep x {0,1} message" : part == 'F' ? "every single flag bit alone x 5 typed data classes" : part == 'Y' ? "every payload type byte 0..255 x 6 frame message types (incl. 0) x {valid CAN image, image with a lying inner length}" : (part == 'P' ? "all ordered message pairs" : (part == 'T' ? "all triples over the sub-alphabet" : "all quadruples over the sub-alphabet"));
             run.round(nm, ts.size(), [&, ts](W& w, uint64_t o) { runC04Task(w, corpus, ts[o]); });
         }
         return run.finish();
@@ -1651,7 +1686,13 @@ int main(int argc, char** argv)
                    "(thorough: all 65536 data types); expected packets from an independent parse; distinct = distinct (expected kind, decoded result) outcomes";
         run.replay_case = [](W& w, const std::string& cs) {
             auto kv = mc::kv_parse(cs);
-            judgeC15(w, mc::unhex(kv["f"]));
+            if (kv.count("loc"))
+            {
+                GroupingLocale gl;
+                judgeC15(w, mc::unhex(kv["f"]));
+            }
+            else
+                judgeC15(w, mc::unhex(kv["f"]));
         };
         if (!opt.case_file.empty())
             return run.run_single(readCase(opt.case_file));
@@ -1699,6 +1740,29 @@ int main(int argc, char** argv)
                     w.add(mc::C_TRACES, 1);
                     w.add(mc::C_STATES, 1);
                 });
+            });
+        }
+        // the process-wide C++ locale is an input of every conversion that formats text: the status messages (the only kind that
+        // produces text: serial number, version strings) again under a global locale with digit grouping and another decimal point
+        {
+            std::vector<TTask> ts;
+            for (auto& t : tt)
+                if (t.part == 'M')
+                    ts.push_back(t);
+            run.round("capture-module status under a global C++ locale with digit grouping", ts.size() + 1, [&, ts](W& w, uint64_t o) {
+                GroupingLocale gl;
+                auto one = [&](const Bytes& f) {
+                    auto desc = [&] { return "loc=1;f=" + mc::hex(f); };
+                    if (!w.begin_case(desc))
+                        return;
+                    judgeC15(w, f);
+                    w.add(mc::C_TRACES, 1);
+                    w.add(mc::C_STATES, 1);
+                };
+                if (o == ts.size())
+                    one(captures::kDecodeCaptureModulePayload);
+                else
+                    tecmpEnumerate(ts[o], thorough, one);
             });
         }
         return run.finish();
